@@ -271,7 +271,10 @@ PROP = {
             "DEL on /redis-gunyu/… keys, 2 % of the events, corpus 'H<S>:<cmd>'), keys with an expiry, lazy expiry ahead of the SET inside MULTI: nothing of it may come out as a unit. "
             "The names op carries INPUTS only (ids, random bytes, desired recovery family): whether a start switches the format and what UpdateCheckpoint relabels / drops is computed by the "
             "model (runFull). distinct_nontrivial is not used (histories are compared whole). "
-            "SESSION 5: (14) closed loop with a CLUSTER pair through the real cluster-mode loops in both directions (rerun clusterloop): see partial; (12) histories with databases in the closed loop (rerun 'histdb'): see partial; (13) the hash-tag probe in plain mode (rerun hashtagplain; found D41): real rdb.Loader + "
+            "SESSION 5: (15) links with a PARTIAL key filter (prefixKeyBlacklist tmp:; rerun 'partialfilter <sub>'; round-8 seeded mutation): 2 fixed + 25 quick / 600 thorough generated streams of DEL / "
+            "UNLINK / MSET with some filtered keys, single and inside client transactions: (a) the real parser with ALL units held until it has finished (what a slow sender has not taken yet), "
+            "(b) the real sync and pipeline send loops into the target double - the units / the business commands executed at the other site are exactly the client blocks projected by the "
+            "filter, each once (monitor on the implementation; aliasing of a projected argument list between units shows as unit-content-differs). (14) closed loop with a CLUSTER pair through the real cluster-mode loops in both directions (rerun clusterloop): see partial; (12) histories with databases in the closed loop (rerun 'histdb'): see partial; (13) the hash-tag probe in plain mode (rerun hashtagplain; found D41): real rdb.Loader + "
             "rdbReplay, replaceHashTag on, keyExists replace / ignore x RESTORE on / off, a stored position at the target: every reserved key is afterwards what it was. (8) the recognition predicates are REGENERATED: isBisyncNamespaceKey / touchesBisyncNamespace / isBisyncControlCommand / isBisyncMarkerCommand / "
             "isBisyncMarkerExpiryCommand / isBisyncMirroredTransaction (syncer/bisync.go) and the five checkpoint.IsBisync…Key predicates are translated Go->Lean on every run "
             "(generators gofn_bisyncpreds, gofn_bisynckeypreds: Gen/FnBisyncPreds.lean, Gen/FnBisyncKeyPreds.lean) and proved equal to the hand model for all inputs "
